@@ -65,7 +65,10 @@ def arg_parser(formats):
     parser.add_argument(
         "infile",
         nargs="?",
-        type=argparse.FileType("r"),
+        # Bytes, so that the file is read the way pvl.load() reads it
+        # from its path: no newline translation, and text followed by
+        # binary data is fine.
+        type=argparse.FileType("rb"),
         default=sys.stdin,
         help="file containing PVL text to translate, " "defaults to STDIN.",
     )
